@@ -8,6 +8,7 @@ import itertools
 import math
 import os
 import random
+import re
 import shutil
 import tempfile
 
@@ -23,24 +24,54 @@ RULE = ("cases: (1) exhaustive small scope: all 0..2-modification lists over pos
         "(mostly ascending), 0..3 alternative proteins with mixed prefixes and descriptions, optional "
         "attributes present/absent, namespace on/off, shuffled child order, duplicate score names, explicit and default decoy_prefix; "
         "(3) malformed stream: non-XML text, empty file, truncated / garbage-terminated XML, XML without hits, "
-        "Percolator score names, missing required attributes, empty file list.  distinct = distinct "
-        "(prefix, document trees, rendering styles); non-trivial = >=2 hits, or a hit with >=2 modifications or "
-        ">=1 alternative protein, or a malformed document")
+        "Percolator score names, missing required attributes, empty file list; "
+        "(4) [white-box review] the ways of WRITING one document, one at a time and at random: XML declaration absent / "
+        "without encoding / UTF-8 BOM / ISO-8859-1 / UTF-16, namespace as default, bound to a prefix, absent; LF / CRLF / "
+        "no line breaks / indentation; prolog with stylesheet instruction, comments (up to 40 KB, beyond one 32 KiB read of "
+        "the parser), DOCTYPE, blank padding; analysis_summary elements around the runs; comments and processing "
+        "instructions between any two tags; is_rejected / mod_nterm_mass attributes; number literals as 1.5, 1.5000, "
+        "1.5e+00, +1.5; file names with blanks, non-ASCII letters, no extension, and names whose sort order is the "
+        "reverse of the argument order; (5) the ARGUMENTS: files as list, tuple, str, pathlib.Path, list of Path, mixed, "
+        "numpy array, pandas Series with a non-default index, generator, 12 files; exclude_features as str / list / tuple "
+        "of score names, derived columns, non-feature columns and unknown names; open_modification_bin_size 0.01..2.5; "
+        "to_df=False (the LinearPsmDataset's data, features, spectra, targets, peptides); every combination of the three "
+        "on 1..3 files; (6) VALUES: decoy prefixes that are regular-expression / glob syntax against proteins that carry "
+        "the prefix and proteins one edit away from it, scan numbers 0, >= 2^31 and 2^53+odd, charges 10..25, calculated "
+        "mass close to the precursor mass (mass differences 0, +-0.0001.., open-modification sized), peptides of 20..45 "
+        "residues with 3..8 modifications, score values in upper-case / negative exponent notation, 0/1-only, spanning "
+        "9 orders of magnitude; (7) STATE: half of the option cases and a dedicated sequence write different documents to "
+        "the SAME paths one after the other (and back), calls repeated twice must agree, pandas options "
+        "future.infer_string=False / string_storage=python; (8) documents of 900..5000 hits (0.4..2 MB); (9) malformed x "
+        "options: missing path, directory, binary file, XML of another format, Percolator score that is also excluded, "
+        "every defect combined with the options of (5).  Input classes of (5) and the path-level defects of (9) are outside "
+        "the Coq model (which starts at the element tree and ends before the numeric post-processing): for them the model "
+        "still supplies the rows, and the harness alone checks the bin suffix (within bin/2 of exp_mass - calc_mass, equal "
+        "differences in equal bins, monotone), the untouched text of excluded columns, the dataset views and the error "
+        "kind OSError.  Every numeric feature column (search scores, mass_diff, abs_mz_diff) must carry its own row's "
+        "value or, for the whole column, its log10.  (10) search scores named like the parser's own keys: known finding.  "
+        "distinct = distinct (prefix, document trees, rendering styles, options); non-trivial = >=2 hits, or a hit with >=2 "
+        "modifications or >=1 alternative protein, or a malformed document")
 ASSUMPTIONS = [
     "lxml (iterparse, Element.iter, Element.get) is an oracle: the model starts from the element tree; "
-    "generated attribute values contain no TAB/CR/LF (XML attribute-value normalisation is not modelled)",
-    "search_score names never collide with the parser's own dictionary keys / derived columns "
+    "generated attribute values contain no TAB/CR/LF (XML attribute-value normalisation is not modelled); "
+    "search_hit / search_score / alternative_protein / modification_info elements sit where the pepXML schema puts them "
+    "(direct children), so descendant and child iteration agree",
+    "search_score names that collide with the parser's own dictionary keys / derived columns "
     "(ms_data_file, scan, charge, ret_time, exp_mass, calc_mass, peptide, proteins, label, missed_cleavages, "
-    "ntt, num_matched_peptides, mass_diff, abs_mz_diff, charge_<n>); search_score values are numeric literals",
-    "numeric attributes are decimal literals with <= 4 fractional digits, passed to the model as integers "
-    "scaled by 10^4 (the model only moves them); num_matched_peptides >= 0, missed cleavages / ntt in 0..9 "
-    "(so that _log_features is the identity on them)",
+    "ntt, num_matched_peptides, mass_diff, abs_mz_diff, charge_<n>) break the property in /repo (known finding "
+    "pepxml:score-name-collides-with-parser-key); all other streams avoid them; search_score values are numeric literals",
+    "numeric attributes are decimal literals with <= 4 fractional digits (plain, zero-padded, exponent or signed form), "
+    "passed to the model as integers scaled by 10^4 (the model only moves them); num_matched_peptides >= 0, "
+    "missed cleavages / ntt in 0..9 (so that _log_features is the identity on them)",
     "numeric feature post-processing (_log_features, log10 of num_matched_peptides, mass_diff, abs_mz_diff, "
-    "charge one-hot) is an oracle: compared are presence of the column, float dtype, NaN pattern, and the value "
-    "only for columns on which the transform is certainly the identity (no exponent notation, a negative value "
-    "present or max/min of the non-zero values < 5000)",
+    "charge one-hot, open-modification bins) is an oracle for the Coq model; the harness checks: presence of the column, "
+    "float dtype (unless excluded), NaN pattern, the exact value for columns on which the transform is certainly the "
+    "identity (no exponent notation, a negative value present or max/min of the non-zero values < 5000, or excluded), "
+    "and for every other column that all rows carry their own value or all rows its log10 (rel 1e-9)",
     "base_name, peptide and protein attributes are always present (their absence is an AttributeError / None "
     "propagation that the model does not cover)",
+    "warnings are not errors and numpy's floating-point error state is the default (log10(0) for num_matched_peptides=0 "
+    "warns); logging is disabled by the runner",
 ]
 TRUSTED_EXTRA = ["lxml.etree.iterparse / Element.iter document order (oracle)",
                  "pandas DataFrame.from_records / concat / get_dummies / apply keep row order (checked by the row comparison)"]
@@ -79,8 +110,25 @@ def dec(zv, style=0):
         return sign + str(ip) + ("." + frac if frac else "")
     if style == 1:
         return sign + str(ip) + "." + frac
+    if style == 3:
+        # scientific notation with the same decimal value: d.ddddde+XX
+        digits = (str(ip) + frac).lstrip("0")
+        if not digits:
+            return sign + "0.0e+00"
+        exp10 = len(str(ip) + frac) - len((str(ip) + frac).lstrip("0"))
+        e = len(str(ip)) - 1 - exp10
+        mant = digits.rstrip("0") or "0"
+        return sign + mant[0] + "." + (mant[1:] or "0") + ("e%+03d" % e)
+    if style == 4:
+        frac = frac.rstrip("0")
+        return ("+" if not sign else sign) + str(ip) + ("." + frac if frac else "")
     frac = frac.rstrip("0")
     return sign + str(ip) + "." + (frac or "0")
+
+
+def nstyle(st, shift=0):
+    """number-literal style of an element style: 0..2 for the old styles 0..2, 0..4 beyond"""
+    return (st + shift) % 3 if st < 3 else (st + shift) % 5
 
 
 def attrs(pairs):
@@ -91,7 +139,7 @@ def render_hit(h, out, rank):
     st = h.get("style", 0)
     a = [("hit_rank", str(rank)), ("peptide", h["pep"]), ("peptide_prev_aa", "K")]
     if h["calc"] is not None:
-        a.append(("calc_neutral_pep_mass", dec(h["calc"], st % 3)))
+        a.append(("calc_neutral_pep_mass", dec(h["calc"], h["nstyle"] if h.get("nstyle") is not None else st % 3)))
     if h["mc"] is not None:
         a.append(("num_missed_cleavages", str(h["mc"])))
     a.append(("protein", h["prot"]))
@@ -100,10 +148,13 @@ def render_hit(h, out, rank):
     if h["nmp"] is not None:
         a.append(("num_matched_peptides", str(h["nmp"])))
     a.append(("massdiff", "0.01"))
+    if h.get("rejected") is not None:
+        a.append(("is_rejected", str(h["rejected"])))
     out.append("<search_hit" + attrs(a) + ">")
     kids = []
     for info in h["infos"]:
-        s = "<modification_info" + (' modified_peptide="x"' if st % 2 else "") + ">"
+        s = ("<modification_info" + (' modified_peptide="x"' if st % 2 else "")
+             + (' mod_nterm_mass="43.0184"' if h.get("nterm") else "") + ">")
         for pos, mass in info:
             if st % 2:
                 s += f'<mod_aminoacid_mass mass="{esc(mass)}" position="{pos}"/>'
@@ -135,14 +186,14 @@ def render_spectrum(s, out, idx):
     st = s.get("style", 0)
     a = [("spectrum", f"sp.{idx}"), ("start_scan", "1")]
     if s["scan"] is not None:
-        a.append(("end_scan", ("00" if st == 2 else "") + str(s["scan"])))
+        a.append(("end_scan", ("00" if st == 2 else ("+" if st == 7 and s["scan"] >= 0 else "")) + str(s["scan"])))
     if s["mass"] is not None:
-        a.append(("precursor_neutral_mass", dec(s["mass"], st % 3)))
+        a.append(("precursor_neutral_mass", dec(s["mass"], nstyle(st))))
     if s["charge"] is not None:
         a.append(("assumed_charge", str(s["charge"])))
     a.append(("index", str(idx)))
     if s["rt"] is not None:
-        a.append(("retention_time_sec", dec(s["rt"], (st + 1) % 3)))
+        a.append(("retention_time_sec", dec(s["rt"], nstyle(st, 1))))
     out.append("<spectrum_query" + attrs(a) + ">")
     for res in s["results"]:
         out.append("<search_result>")
@@ -164,20 +215,60 @@ def render_run(r, out):
 
 
 def render_file(f):
+    """the text of one file (before the byte-level choices of file_bytes)"""
     br = f.get("broken")
+    fmt = f.get("fmt") or {}
     if br == "notxml":
         return "Blah\tblah\\blah\nblah\tblah\n"
     if br == "empty":
         return ""
+    if br == "otherxml":
+        # well-formed XML that is not PepXML at all (no msms_run_summary anywhere)
+        return ('<?xml version="1.0" encoding="UTF-8"?>\n<MzIdentML id="x" version="1.1.0"><SequenceCollection>'
+                '<Peptide id="p1"><PeptideSequence>PEPTIDEK</PeptideSequence></Peptide></SequenceCollection>'
+                '<search_hit_count n="3"/></MzIdentML>\n')
     out = ['<?xml version="1.0" encoding="UTF-8"?>']
+    for kind in fmt.get("pre", ()):
+        if kind == "pi":
+            out.append('<?xml-stylesheet type="text/xsl" href="pepXML_std.xsl"?>')
+        elif kind == "comment":
+            out.append("<!-- produced by a search engine, then converted -->")
+        elif kind == "longcomment":
+            out.append("<!-- " + ("padding before the root element; " * 40 + "\n") * int(fmt.get("padk", 3)) + "-->")
+        elif kind == "doctype":
+            out.append("<!DOCTYPE msms_pipeline_analysis>")
+        elif kind == "blank":
+            out.append("\n" * 50 + " " * 3000)
     if f.get("ns", True):
-        out.append(f'<msms_pipeline_analysis date="2018-11-29T15:10:44" xmlns="{NS}" summary_xml="x.pepXML">')
+        out.append(f'<msms_pipeline_analysis date="2018-11-29T15:10:44" xmlns="{NS}" summary_xml="x.pepXML"'
+                   + (' xmlns:xsi="http://www.w3.org/2001/XMLSchema-instance" xsi:schemaLocation="'
+                      + NS + ' http://sashimi.sourceforge.net/schema_revision/pepXML/pepXML_v118.xsd"'
+                      if fmt.get("xsi") else "") + ">")
     else:
         out.append('<msms_pipeline_analysis date="2018-11-29T15:10:44">')
+    if fmt.get("between"):
+        out.append('<analysis_summary analysis="peptideprophet" time="2018-11-29T15:10:44">'
+                   '<peptideprophet_summary version="x" min_prob="0.05"><inputfile name="a.pep.xml"/>'
+                   '<roc_error_data charge="all"><roc_data_point min_prob="0.9" sensitivity="0.5" error="0.01" '
+                   'num_corr="10" num_incorr="1"/></roc_error_data></peptideprophet_summary></analysis_summary>')
+        out.append('<dataset_derivation generation_no="0"/>')
+    body0 = len(out)
     for r in f["runs"]:
         render_run(r, out)
+    if fmt.get("between"):
+        out.append('<analysis_summary analysis="database_refresh" time="2018-11-29T15:10:45"/>')
+    if fmt.get("noise") is not None and len(out) > body0:
+        # comments and processing instructions between any two tags inside the root element
+        rng = random.Random(fmt["noise"])
+        for _ in range(1 + (len(out) - body0) // 3):
+            at = rng.randint(body0, len(out))
+            out.insert(at, rng.choice(["<!-- note -->", "<?tool keep?>", "<!--search_hit peptide='X'-->",
+                                       "<!-- <search_score name='ghost' value='1'/> -->"]))
+        out = [x.replace("</modification_info>", "<!-- m --></modification_info>") for x in out]
     if br is None:
         out.append("</msms_pipeline_analysis>")
+        if fmt.get("noise") is not None:
+            out.append("<!-- trailing comment -->")
     elif br == "trunc":
         pass
     elif br == "garbage":
@@ -190,9 +281,45 @@ def render_file(f):
         out.append(txt[: max(20, (len(txt) * 2) // 3)])
     elif br == "mismatch":
         out.append("</msms_run_summary></msms_pipeline_analysis>")
+    elif br in ("missing", "isdir", "binary"):
+        pass                                     # no text is used: see file_bytes / _write_files
     else:
         raise ValueError(br)
-    return "\n".join(out) + "\n"
+    eol = {"lf": "\n", "crlf": "\r\n", "none": "", "indent": "\n   \t"}[fmt.get("eol", "lf")]
+    txt = eol.join(out) + ("\n" if eol != "" else "")
+    if fmt.get("nsmode") == "prefix" and f.get("ns", True):
+        # the same namespace bound to a prefix: every element name is written p:name
+        txt = re.sub(r"<(/?)([A-Za-z_])", r"<\1p:\2", txt).replace(' xmlns="', ' xmlns:p="', 1)
+    return txt
+
+
+def file_bytes(f):
+    """the bytes written to disk: encoding / byte-order mark / XML declaration choices"""
+    if f.get("broken") == "binary":
+        return bytes(random.Random(f.get("binseed", 0)).randrange(256) for _ in range(700))
+    txt = render_file(f)
+    decl = (f.get("fmt") or {}).get("decl", "utf8")
+    head = '<?xml version="1.0" encoding="UTF-8"?>'
+    if decl == "utf8" or not txt.startswith(head):
+        return txt.encode("utf-8")
+    if decl == "none":
+        return txt[len(head):].lstrip("\r\n").encode("utf-8")
+    if decl == "noenc":
+        return ('<?xml version="1.0"?>' + txt[len(head):]).encode("utf-8")
+    if decl == "bom":
+        return b"\xef\xbb\xbf" + txt.encode("utf-8")
+    if decl == "latin1":
+        try:
+            return ('<?xml version="1.0" encoding="ISO-8859-1"?>' + txt[len(head):]).encode("latin-1")
+        except UnicodeEncodeError:
+            return txt.encode("utf-8")
+    if decl == "utf16":
+        return ('<?xml version="1.0" encoding="UTF-16"?>' + txt[len(head):]).encode("utf-16")
+    raise ValueError(decl)
+
+
+FILE_NAMES = ["f{k}.pep.xml", "f{k}.pepXML", "sp ace {k}.pep.xml", "\u00fcn\u00ef{k}.xml", "f{k}", "f{k}.xml.txt",
+              "x{k}.interact.pep.xml", "z{r}.pep.xml", "{r}_later_first.pepXML", "{m}.xml"]     # {r}, {m}: not ascending in k
 
 
 # ----------------------------------------------------------------------------- tree helpers
@@ -220,7 +347,11 @@ def ident_cols(case):
         for n, v in score_dict(h).items():
             vals.setdefault(n, []).append(v)
     ok = set()
+    excluded = set(exclude_names(case))
     for n, vs in vals.items():
+        if n in excluded:
+            ok.add(n)                       # exclude_features: the column is left exactly as parsed
+            continue
         if any(("e" in v.lower()) for v in vs):
             continue
         try:
@@ -233,6 +364,45 @@ def ident_cols(case):
         if any(x < 0 for x in fs) or not nz or max(nz) / min(nz) < 5000:
             ok.add(n)
     return ok
+
+
+def exclude_names(case):
+    ex = case.get("exclude")
+    return list(ex["names"]) if ex else []
+
+
+def spec_label(h, prefix):
+    """the property text: a decoy only if every protein carries the decoy prefix"""
+    prots = [p.split(" ")[0] for p in [h["prot"]] + h["alts"]]
+    return not all(p.startswith(prefix) for p in prots)
+
+
+PATH_BROKEN = ("missing", "isdir")
+
+
+def _file_ok(f):
+    return well_formed({"files": [f]})
+
+
+def path_broken_first(case):
+    """True when the first file that cannot be parsed is one that does not exist / is a directory"""
+    for f in case["files"]:
+        if f.get("broken") in PATH_BROKEN:
+            return True
+        if not _file_ok_modulo_perc(f):
+            return False
+    return False
+
+
+def _file_ok_modulo_perc(f):
+    import copy
+    g = copy.deepcopy(f)
+    for r in g["runs"]:
+        for sp in r["spectra"]:
+            for res in sp["results"]:
+                for h in res:
+                    h["scores"] = [x for x in h["scores"] if x[0] not in PERC]
+    return _file_ok(g)
 
 
 def well_formed(case):
@@ -327,7 +497,8 @@ def enc_run(r):
 
 
 def enc_file(f):
-    return lib.lst(f["runs"], enc_run) + " " + lib.b(f.get("broken") is not None)
+    # "otherxml" is well-formed XML without any run: the model sees an empty, unbroken tree
+    return lib.lst(f["runs"], enc_run) + " " + lib.b(f.get("broken") not in (None, "otherxml"))
 
 
 def encode(c):
@@ -351,9 +522,13 @@ def decode(c, t):
     res = t.result(lambda: t.lst(psm))
     t.done()
     if res[0] != "ok":
+        if tuple(res) == ("err", "ValueError") and path_broken_first(c):
+            # outside the model (which starts from element trees): a path that cannot be opened is an OSError
+            return ("err", "OSError")
         return res
     rows = res[1]
-    return ("ok", {"rows": canon_rows(rows, ident_cols(c)), "columns": expected_columns(rows), "nonfloat": []})
+    return ("ok", {"rows": canon_rows(rows, ident_cols(c)), "columns": expected_columns(rows), "nonfloat": [],
+                   "anomalies": []})
 
 
 # ----------------------------------------------------------------------------- implementation side
@@ -388,48 +563,199 @@ def _unlog(x):
     return ["float", repr(x)]
 
 
-def _read(case):
-    import numpy as np
-    import mokapot
-    d = tempfile.mkdtemp(dir=_tmpdir())
-    try:
-        paths = []
-        for k, f in enumerate(case["files"]):
-            p = os.path.join(d, f"f{k}.pep.xml")
-            with open(p, "w", encoding="utf-8", newline="") as fh:
-                fh.write(render_file(f))
-            paths.append(p)
-        arg = paths
-        if case.get("as_str") and len(paths) == 1:
-            arg = paths[0]
-        elif case.get("as_tuple"):
-            arg = tuple(paths)
-        if case.get("default_prefix"):
-            df = mokapot.read_pepxml(arg, to_df=True)            # decoy_prefix defaults to "decoy_"
+PROTON = 1.00727646677
+_SHARED = None
+
+
+def _shared_dir():
+    global _SHARED
+    if _SHARED is None:
+        _SHARED = os.path.join(_tmpdir(), "shared dir")
+        os.makedirs(_SHARED, exist_ok=True)
+    return _SHARED
+
+
+def _write_files(case, d):
+    paths = []
+    for k, f in enumerate(case["files"]):
+        name = FILE_NAMES[(f.get("fmt") or {}).get("name", 0) % len(FILE_NAMES)].format(
+            k=k, r="%02d" % (50 - k), m="bca"[k % 3] + str(k // 3))
+        while os.path.join(d, name) in paths:
+            name = "_" + name
+        p = os.path.join(d, name)
+        if os.path.isdir(p):
+            shutil.rmtree(p, ignore_errors=True)
+        elif os.path.exists(p):
+            os.remove(p)
+        if f.get("broken") == "missing":
+            pass
+        elif f.get("broken") == "isdir":
+            os.makedirs(p, exist_ok=True)
         else:
-            df = mokapot.read_pepxml(arg, decoy_prefix=case["prefix"], to_df=True)
-    finally:
-        shutil.rmtree(d, ignore_errors=True)
+            with open(p, "wb") as fh:
+                fh.write(file_bytes(f))
+        paths.append(p)
+    return paths
+
+
+def _argument(case, paths):
+    import pathlib
+    kind = case.get("arg")
+    if kind is None:
+        if case.get("as_str") and len(paths) == 1:
+            kind = "str"
+        elif case.get("as_tuple"):
+            kind = "tuple"
+        else:
+            kind = "list"
+    if kind in ("str", "path") and len(paths) != 1:
+        kind = "tuple" if kind == "str" else "pathlist"
+    if kind == "list":
+        return list(paths)
+    if kind == "tuple":
+        return tuple(paths)
+    if kind == "str":
+        return paths[0]
+    if kind == "path":
+        return pathlib.Path(paths[0])
+    if kind == "pathlist":
+        return [pathlib.Path(p) for p in paths]
+    if kind == "mixed":
+        return tuple(pathlib.Path(p) if k % 2 else p for k, p in enumerate(paths))
+    if kind == "nparray":
+        import numpy as np
+        return np.array(paths)
+    if kind == "series":
+        import pandas as pd
+        return pd.Series(paths, index=[10 + 3 * k for k in range(len(paths))][::-1])
+    if kind == "gen":
+        return (p for p in paths)
+    raise ValueError(kind)
+
+
+def _close(a, b, abs_tol=1e-12):
+    return math.isclose(a, b, rel_tol=1e-9, abs_tol=abs_tol)
+
+
+def column_mode(want, got, abs_tol=1e-12):
+    """how a numeric feature column carries the document's values: 'id' (unchanged), 'log' (log10 of every
+    non-zero value; zeros below all of them) or 'bad'.  want: float or None per row (None: absent -> NaN)"""
+    pairs = []
+    for w, g in zip(want, got):
+        g = float(g)
+        if (w is None) != (g != g):
+            return "bad"
+        if w is not None:
+            pairs.append((w, g))
+    if all(_close(w, g, abs_tol) for w, g in pairs):
+        return "id"
+    if all(w >= 0 for w, _ in pairs):
+        nz = [(w, g) for w, g in pairs if w != 0]
+        if nz and all(math.isfinite(g) and _close(math.log10(w), g, abs_tol) for w, g in nz):
+            low = min(g for _, g in nz)
+            if all(g <= low for w, g in pairs if w == 0):
+                return "log"
+    return "bad"
+
+
+def _canon_frame(case, df, excluded):
+    """data frame -> canonical result"""
     cols = [str(c) for c in df.columns]
     ident = ident_cols(case)
+    anomalies = []
     known = set(FIXED_COLS) | {"missed_cleavages", "ntt", "num_matched_peptides"}
     charges = set(int(c) for c in df["charge"].tolist())
     known |= {f"charge_{c}" for c in charges}
     score_cols = [c for c in cols if c not in known]
-    nonfloat = sorted(c for c in cols if c not in NONFEAT and str(df[c].dtype) != "float64")
+    nonfloat = sorted(c for c in cols if c not in NONFEAT and c not in excluded and str(df[c].dtype) != "float64")
     for c, want in (("scan", "int64"), ("charge", "int64"), ("ret_time", "float64"), ("exp_mass", "float64"),
                     ("calc_mass", "float64"), ("label", "bool")):
         if str(df[c].dtype) != want:
             nonfloat.append(f"{c}:{df[c].dtype}")
-    rows = []
     recs = df.to_dict("list")
-    for i in range(len(df)):
+    n = len(df)
+    hits = list(all_hits(case))
+    aligned = len(hits) == n and all(None not in (s["mass"], s["charge"], h["calc"]) for _, _, s, h in hits)
+    # ---- per-column check of the numeric features against the document (needs one row per hit)
+    bad_cols = set()
+    if aligned:
+        for c in score_cols:
+            want = []
+            for _, _, _, h in hits:
+                v = score_dict(h).get(c)
+                try:
+                    want.append(None if v is None else float(v))
+                except ValueError:
+                    want.append(None)
+            if c in excluded:
+                # left exactly as parsed: the attribute text itself (or the same number)
+                for i, (_, _, _, h) in enumerate(hits):
+                    v = score_dict(h).get(c)
+                    raw = recs[c][i]
+                    if v is None:
+                        continue
+                    if isinstance(raw, str) and raw != v:
+                        bad_cols.add(c)
+                continue
+            try:
+                mode = column_mode(want, [recs[c][i] for i in range(n)])
+            except (TypeError, ValueError):
+                mode = "bad"
+            if mode == "bad" or (c in ident and mode != "id"):
+                bad_cols.add(c)
+        md, mz = [], []
+        for _, _, s, h in hits:
+            e, k, z = s["mass"] / SCALE, h["calc"] / SCALE, s["charge"]
+            md.append(e - k)
+            mz.append(abs((e / z + PROTON) - (k / z + PROTON)) if z != 0 else None)
+        for c, want in (("mass_diff", md), ("abs_mz_diff", mz)):
+            if c not in recs or any(w is None for w in want):
+                continue
+            try:
+                mode = column_mode(want, [recs[c][i] for i in range(n)], abs_tol=1e-9)
+            except (TypeError, ValueError):
+                mode = "bad"
+            if mode == "bad" or (c in excluded and mode != "id"):
+                anomalies.append(f"{c}: the column does not carry this row's value (nor its log10)")
+    # ---- open-modification bin: "[<bin centre>]" appended to the peptide
+    peptides = [str(x) for x in recs["peptide"]]
+    if case.get("bin") is not None:
+        size = float(case["bin"])
+        seen = {}
+        stripped = []
+        for i, pep in enumerate(peptides):
+            k = pep.rfind("[")
+            val = None
+            if pep.endswith("]") and k >= 0:
+                try:
+                    val = float(pep[k + 1:-1])
+                except ValueError:
+                    val = None
+            if val is None or not math.isfinite(val):
+                anomalies.append(f"row {i}: peptide {pep!r} has no open-modification bin suffix")
+                stripped.append(pep)
+                continue
+            d = float(recs["exp_mass"][i]) - float(recs["calc_mass"][i])
+            if abs(val - d) > size / 2 + 1e-4 + 1e-9 * max(1.0, abs(d)):
+                anomalies.append(f"row {i}: bin suffix {val!r} is not the bin of mass difference {d!r} (bin size {size})")
+            if seen.setdefault(d, val) != val:
+                anomalies.append(f"row {i}: equal mass differences {d!r} in different bins")
+            stripped.append(pep[:k])
+        order = sorted(seen.items())
+        if any(a[1] > b[1] for a, b in zip(order, order[1:])):
+            anomalies.append("bin suffixes are not monotone in the mass difference")
+        peptides = stripped
+    rows = []
+    for i in range(n):
         sc = []
         for c in score_cols:
             v = float(recs[c][i])
             if v != v:
                 continue
-            sc.append([c, v if c in ident else "num"])
+            if c in bad_cols:
+                sc.append([c, "wrong value", repr(v)])
+            else:
+                sc.append([c, v if c in ident else "num"])
         # the one-hot column of this row's charge must be set, all others clear
         ch = int(recs["charge"][i])
         for c2 in charges:
@@ -438,16 +764,89 @@ def _read(case):
                 sc.append([f"charge_{c2}", "wrong one-hot"])
         rows.append([str(recs["ms_data_file"][i]), int(recs["scan"][i]), ch,
                      _unscale(recs["ret_time"][i]), _unscale(recs["exp_mass"][i]), _unscale(recs["calc_mass"][i]),
-                     str(recs["peptide"][i]), str(recs["proteins"][i]), bool(recs["label"][i]),
+                     peptides[i], str(recs["proteins"][i]), bool(recs["label"][i]),
                      _small_int(recs["missed_cleavages"][i]) if "missed_cleavages" in recs else None,
                      _small_int(recs["ntt"][i]) if "ntt" in recs else None,
                      _unlog(recs["num_matched_peptides"][i]) if "num_matched_peptides" in recs else None,
-                     sorted(sc)])
-    return {"rows": rows, "columns": sorted(cols), "nonfloat": nonfloat}
+                     sorted(sc, key=lambda x: [str(y) for y in x])])
+    return {"rows": rows, "columns": sorted(cols), "nonfloat": nonfloat, "anomalies": anomalies}
+
+
+def _dataset_frame(case, dset, excluded, anomalies):
+    """to_df=False: the data frame inside the LinearPsmDataset, plus its public views"""
+    import numpy as np
+    df = dset.data
+    feats = sorted(str(c) for c in dset.features.columns)
+    want = sorted(str(c) for c in df.columns if str(c) not in NONFEAT and str(c) not in excluded)
+    if feats != want:
+        anomalies.append(f"dataset features {feats} instead of {want}")
+    if [str(c) for c in dset.spectra.columns] != ["ms_data_file", "scan", "ret_time"]:
+        anomalies.append(f"dataset spectrum columns {list(dset.spectra.columns)}")
+    if not np.array_equal(np.asarray(dset.targets), df["label"].to_numpy()):
+        anomalies.append("dataset targets differ from the label column")
+    if list(dset.peptides) != list(df["peptide"]):
+        anomalies.append("dataset peptides differ from the peptide column")
+    if len(dset) != len(df):
+        anomalies.append("len(dataset) differs from the number of rows")
+    return df
+
+
+def _call(case, arg):
+    import mokapot
+    kw = {}
+    if not case.get("default_prefix"):
+        kw["decoy_prefix"] = case["prefix"]          # else: decoy_prefix defaults to "decoy_"
+    ex = case.get("exclude")
+    if ex:
+        names = list(ex["names"])
+        kw["exclude_features"] = (names[0] if ex["kind"] == "str" else
+                                  tuple(names) if ex["kind"] == "tuple" else names)
+    if case.get("bin") is not None:
+        kw["open_modification_bin_size"] = float(case["bin"])
+    if not case.get("dataset"):
+        kw["to_df"] = True
+    return mokapot.read_pepxml(arg, **kw)
+
+
+def _read(case):
+    import contextlib
+    import pandas as pd
+    if case.get("shared"):
+        d = _shared_dir()                    # the same paths are used again and again with new contents
+    else:
+        d = tempfile.mkdtemp(dir=_tmpdir())
+    excluded = set(exclude_names(case))
+    opt = case.get("pdopt")
+    cm = contextlib.nullcontext()
+    if opt == "infer_string_off":
+        cm = pd.option_context("future.infer_string", False)
+    elif opt == "storage_python":
+        cm = pd.option_context("mode.string_storage", "python")
+    try:
+        paths = _write_files(case, d)
+        outs = []
+        with cm:
+            for _ in range(2 if case.get("repeat") else 1):
+                out = _call(case, _argument(case, paths))
+                anomalies = []
+                if case.get("dataset"):
+                    out = _dataset_frame(case, out, excluded, anomalies)
+                res = _canon_frame(case, out, excluded)
+                res["anomalies"] = anomalies + res["anomalies"]
+                outs.append(res)
+    finally:
+        if not case.get("shared"):
+            shutil.rmtree(d, ignore_errors=True)
+    if len(outs) == 2 and lib.jsonable(outs[0]) != lib.jsonable(outs[1]):
+        outs[0]["anomalies"].append("a second identical call returned a different result")
+    return outs[0]
 
 
 def impl(c):
-    return call_impl(_read, c)
+    r = call_impl(_read, c)
+    if r[0] == "err" and r[1] in ("FileNotFoundError", "IsADirectoryError", "NotADirectoryError", "PermissionError"):
+        return ("err", "OSError")
+    return r
 
 
 def same(c, m, i):
@@ -458,7 +857,7 @@ def same(c, m, i):
 def oracle(c, i):
     """the property text, evaluated on the implementation's output"""
     defects = _defects(c)
-    if defects & {"broken", "perc", "nohits"}:
+    if defects & {"broken", "perc", "nohits", "path"}:
         if tuple(i)[0] == "ok":
             return f"input with defects {sorted(defects)} (malformed / non-PepXML / Percolator-produced) was accepted"
         if defects <= {"broken", "perc"} and tuple(i) != ("err", "ValueError"):
@@ -487,19 +886,23 @@ def oracle(c, i):
         prots = [p.split(" ")[0] for p in [h["prot"]] + h["alts"]]
         if row[7] != "\t".join(prots):
             return f"PSM {k}: proteins {row[7]!r}, expected {prots!r}"
-        decoy = all(p.startswith(c["prefix"]) for p in prots)
+        decoy = not spec_label(h, c["prefix"])
         if row[8] != (not decoy):
             return f"PSM {k}: label {row[8]} but proteins {prots!r} with decoy prefix {c['prefix']!r}"
-        have = {n for n, _ in row[12]}
+        have = {x[0] for x in row[12]}
         for n, v in score_dict(h).items():
             if n not in have:
                 return f"PSM {k}: search score {n!r} is not a numeric feature of the PSM"
+            if any(len(x) > 2 and x[0] == n and x[1] == "wrong value" for x in row[12]):
+                return f"PSM {k}: search score {n!r} = {v} is carried as {[x[2] for x in row[12] if x[0] == n]}"
             if n in ident and [n, float(v)] not in [list(x) for x in row[12]]:
                 return f"PSM {k}: search score {n!r} = {v} not carried"
         if any(str(x[1]) == "wrong one-hot" for x in row[12]):
             return f"PSM {k}: charge one-hot columns do not match charge {row[2]}"
     if res["nonfloat"]:
         return f"feature columns that are not numeric: {res['nonfloat']}"
+    if res.get("anomalies"):
+        return "; ".join(res["anomalies"][:3])
     return None
 
 
@@ -509,7 +912,11 @@ def _defects(c):
     if not c["files"]:
         d.add("nofiles")
     for f in c["files"]:
-        if f.get("broken") is not None:
+        if f.get("broken") in PATH_BROKEN:
+            d.add("path")
+        elif f.get("broken") == "otherxml":
+            d.add("nohits")
+        elif f.get("broken") is not None:
             d.add("broken")
         nh = 0
         for r in f["runs"]:
@@ -854,8 +1261,483 @@ def gen_malformed(ctx):
     return cases
 
 
+# ----------------------------------------------------------------------------- white-box review: further streams
+ARG_KINDS = ["list", "tuple", "str", "path", "pathlist", "mixed", "nparray", "series", "gen"]
+SPECIAL_PREFIXES = ["rev.", "decoy|", "(rev)_", "rev_+", "DECOY[1]_", "^rev_", "rev_$", "r*v_", "rev\\_", "dec?y_",
+                    "{rev}", "rev_|decoy_", ".", "[a-z]+_", "d\u00e9c_", "rev_\\d"]
+DECLS = ["utf8", "none", "noenc", "bom", "latin1", "utf16"]
+EOLS = ["lf", "crlf", "none", "indent"]
+PRES = ["pi", "comment", "longcomment", "doctype", "blank"]
+BINS = ["0.01", "0.5", "1", "0.02", "0.1", "2.5"]
+DERIVED = ["mass_diff", "abs_mz_diff", "missed_cleavages", "ntt", "num_matched_peptides"]
+SCORE_NAMES2 = ["Expect", "delta.cn", "score (log)", "x", "Percolator PEP2", "hyperscore ", "Sp-Rank", "1st"]
+
+
+def near_misses(prefix):
+    """strings that almost are the prefix (str.startswith is False for each of them)"""
+    out = []
+    if len(prefix) >= 1:
+        out.append(prefix[:-1])                                    # last character missing
+        out.append(prefix[1:])                                     # first character missing
+        for k in range(len(prefix)):
+            ch = "X" if prefix[k] != "X" else "Y"
+            out.append(prefix[:k] + ch + prefix[k + 1:])           # one character replaced
+            if prefix[k].swapcase() != prefix[k]:
+                out.append(prefix[:k] + prefix[k].swapcase() + prefix[k + 1:])
+        out.append(prefix[: len(prefix) // 2] + "_" + prefix[len(prefix) // 2:])
+        out.append(" " + prefix)
+    return [x for x in dict.fromkeys(out) if not x.startswith(prefix)]
+
+
+def rand_protein2(rng, prefix, decoy):
+    if decoy or rng.random() < 0.5 or not near_misses(prefix):
+        return rand_protein(rng, prefix, decoy)
+    acc = rng.choice(["sp|P%d|X_HUMAN", "P%d", "ENSP%05d"]) % rng.randint(0, 99)
+    return rng.choice(near_misses(prefix)) + acc + rng.choice(["", " desc", " " + prefix + "x"])
+
+
+def rand_fmt(rng, rich=True):
+    fmt = {"name": rng.randrange(len(FILE_NAMES))}
+    if rng.random() < 0.6:
+        fmt["decl"] = rng.choice(DECLS)
+    k = rng.choice([0, 0, 1, 1, 2, 3])
+    pre = rng.sample(PRES, k)
+    if pre:
+        fmt["pre"] = pre
+        fmt["padk"] = rng.choice([1, 3, 3, 30])
+    for key in ("xsi", "between"):
+        if rng.random() < 0.4:
+            fmt[key] = True
+    if rng.random() < 0.4:
+        fmt["noise"] = rng.randrange(1000)
+    if rng.random() < 0.5:
+        fmt["eol"] = rng.choice(EOLS)
+    if rng.random() < 0.35:
+        fmt["nsmode"] = "prefix"
+    return fmt
+
+
+def enrich_doc(rng, files, prefix):
+    """value domains the first generator never leaves: number-literal styles, very large scan numbers, two-digit
+    charges, calculated masses close to the precursor mass, long peptides with many modifications, N-terminal
+    modification attributes, further score names / value shapes, proteins that nearly carry the prefix"""
+    close = rng.random() < 0.6
+    extra_name = rng.choice(SCORE_NAMES2) if rng.random() < 0.5 else None
+    extra_kind = rng.choice(["negsci", "uppersci", "big", "binary", "mixedsci", "tiny"])
+    for f in files:
+        for r in f["runs"]:
+            for s in r["spectra"]:
+                s["style"] = rng.randrange(10)
+                k = rng.random()
+                if k < 0.04:
+                    s["scan"] = 2 ** 31 + rng.randint(0, 1000)
+                elif k < 0.07:
+                    s["scan"] = 2 ** 53 + 1 + 2 * rng.randint(0, 1000)
+                elif k < 0.1:
+                    s["scan"] = 0
+                if rng.random() < 0.15:
+                    s["charge"] = rng.choice([10, 11, 12, 25])
+                if rng.random() < 0.05:
+                    s["rt"] = 0
+                for res in s["results"]:
+                    for h in res:
+                        h["nstyle"] = rng.randrange(5)
+                        if rng.random() < 0.25:
+                            h["rejected"] = rng.choice([0, 1])
+                        if close:
+                            delta = rng.choice([0, 0, rng.randint(1, 60), rng.randint(1, 60), -rng.randint(1, 60),
+                                                10000 * rng.randint(1, 3) + rng.randint(0, 40), 159949, 799663, -10078,
+                                                rng.randint(1, 2000000)])
+                            h["calc"] = max(1, s["mass"] - delta)
+                        if rng.random() < 0.1:
+                            n = rng.randint(20, 45)
+                            h["pep"] = "".join(rng.choice(PEP_ALPHA) for _ in range(n))
+                            ps = sorted(rng.sample(range(1, n + 1), rng.randint(3, 8)))
+                            h["infos"] = [[[p_, rng.choice(["15.9949", "57.0215", "42", "-17.0265", "229.16", "1", "0.984016"])]
+                                           for p_ in ps]]
+                        if h["infos"] and rng.random() < 0.3:
+                            h["nterm"] = True
+                        if rng.random() < 0.3:
+                            dec_primary = rng.random() < 0.5
+                            h["prot"] = rand_protein2(rng, prefix, dec_primary)
+                            h["alts"] = [rand_protein2(rng, prefix, rng.random() < (0.7 if dec_primary else 0.3))
+                                         for _ in h["alts"]]
+                        if extra_name is not None and rng.random() < 0.9:
+                            if extra_kind == "negsci":
+                                v = rng.choice(["-1.5e-03", "2.5e-07", "-4.0E+01", "0.0e+00", "7e2"])
+                            elif extra_kind == "uppersci":
+                                v = rng.choice(["1.768E+00", "2.5E-07", "3E-3", "1E-12", "4.2E+01"])
+                            elif extra_kind == "big":
+                                v = rng.choice(["123456789.5", "1000000", "0.5", "98765.4321", "3"])
+                            elif extra_kind == "binary":
+                                v = rng.choice(["0", "1"])
+                            elif extra_kind == "tiny":
+                                v = rng.choice(["0.00001", "0.5", "0", "12", "0.000002", "250000"])
+                            else:
+                                v = rng.choice(["1e-5", "0.5", "12", "3.5e+00", "100"])
+                            h["scores"].append([extra_name, v])
+    return files
+
+
+def doc_labels(files, prefix):
+    return {spec_label(h, prefix) for _, _, _, h in all_hits({"files": files})}
+
+
+def doc_score_names(files):
+    names = []
+    for _, _, _, h in all_hits({"files": files}):
+        for n, _ in h["scores"]:
+            if n not in names:
+                names.append(n)
+    return names
+
+
+def rand_exclude(rng, files):
+    names = doc_score_names(files)
+    charges = sorted({s["charge"] for _, _, s, _ in all_hits({"files": files}) if s["charge"] is not None})
+    pool = names * 3 + DERIVED + [f"charge_{c}" for c in charges] + ["scan", "peptide", "no such column"]
+    kind = rng.choice(["str", "list", "tuple"])
+    k = 1 if kind == "str" else rng.randint(1, 3)
+    return {"kind": kind, "names": list(dict.fromkeys(rng.choice(pool) for _ in range(k)))}
+
+
+def rand_options(rng, files, prefix, tags):
+    o = {"arg": rng.choice(ARG_KINDS)}
+    tags.append("arg=" + o["arg"])
+    if rng.random() < 0.4:
+        o["exclude"] = rand_exclude(rng, files)
+        tags.append("exclude=" + o["exclude"]["kind"])
+    if rng.random() < 0.35:
+        o["bin"] = rng.choice(BINS)
+        tags.append("open-mod-bin")
+    if rng.random() < 0.3 and doc_labels(files, prefix) == {True, False}:
+        o["dataset"] = True
+        tags.append("to_df=False")
+    if rng.random() < 0.5:
+        o["shared"] = True
+        tags.append("reused-path")
+    k = rng.random()
+    if k < 0.06:
+        o["pdopt"] = "infer_string_off"
+    elif k < 0.1:
+        o["pdopt"] = "storage_python"
+    if "pdopt" in o:
+        tags.append("pandas-option")
+    if rng.random() < 0.1:
+        o["repeat"] = True
+        tags.append("called-twice")
+    return o
+
+
+def fmt_tags(files):
+    t = set()
+    for f in files:
+        fmt = f.get("fmt") or {}
+        if fmt.get("decl", "utf8") != "utf8":
+            t.add("decl=" + fmt["decl"])
+        if fmt.get("nsmode") == "prefix" and f.get("ns", True):
+            t.add("ns=prefixed")
+        if fmt.get("eol", "lf") != "lf":
+            t.add("eol=" + fmt["eol"])
+        if fmt.get("pre"):
+            t.add("prolog")
+            if "longcomment" in fmt["pre"] and fmt.get("padk", 3) >= 30:
+                t.add("prolog>32K")
+        if fmt.get("noise") is not None:
+            t.add("comments+PIs")
+        if fmt.get("between"):
+            t.add("analysis_summary")
+    return sorted(t)
+
+
+def opt_doc(nfiles=2, prefix="rev_"):
+    """a fixed small document with everything the property talks about: two runs, several hits per spectrum, several
+    modifications, alternative proteins, both labels, optional attributes present and absent, exponent scores"""
+    files = []
+    for k in range(nfiles):
+        h1 = mk_hit(pep="MPEPTCDEK", prot=prefix + "sp|Q%d|A desc" % k, calc=9895821 + k, mc=1, ntt=2, nmp=120,
+                    infos=[[(1, "15.9949"), (6, "57.0215"), (9, "229.16")]], alts=[prefix + "B%d x" % k],
+                    scores=[("hyperscore", "14.534"), ("expect", "1.768e+00"), ("deltacn", "0.25")], style=k)
+        h2 = mk_hit(pep="TATGVQGK", prot="sp|P%d|B desc" % k, calc=9895709, mc=0, nmp=3,
+                    alts=[prefix + "C", "D%d" % k], scores=[("hyperscore", "11.25"), ("expect", "2.5e-07")], style=1, perm=5)
+        h3 = mk_hit(pep="RPAPLLR", prot=prefix + "E", calc=8215235 - 30 * k, ntt=1,
+                    infos=[[(7, "1")]], scores=[("hyperscore", "9.293"), ("expect", "3E-3"), ("deltacn", "0")], style=2)
+        h4 = mk_hit(pep="AAK", prot="F%d" % k, calc=8215200, scores=[("hyperscore", "0.5"), ("expect", "4.2e+01")])
+        r1 = mk_run([mk_spec([[h1, h2]], scan=8 + k, charge=2, rt=1233720, mass=9896051),
+                     mk_spec([[h3], [h4]], scan=9, charge=3, rt=1234420 + k, mass=8225355)], base="run%d" % k, style=k % 2)
+        r2 = mk_run([mk_spec([[mk_hit(pep="KK", prot="G", calc=2741000, scores=[("hyperscore", "3")])]], scan=77,
+                             charge=1, rt=5, mass=2741001)], base="/data/rün", raw=".raw")
+        files.append(mk_file([r1, r2] if k != 1 else [r1], ns=(k != 2)))
+    return files
+
+
+def gen_formats(ctx):
+    """every byte-level / markup-level way of writing the same document, one dimension at a time"""
+    cases = []
+
+    def add(fmt, tags, ns=True, nfiles=1):
+        files = opt_doc(nfiles)
+        for f in files:
+            f["fmt"] = dict(fmt)
+            f["ns"] = ns
+        cases.append(mk_case(files, "rev_", ["formats"] + tags + fmt_tags(files)))
+    for decl in DECLS:
+        for ns, nsmode in ((True, None), (True, "prefix"), (False, None)):
+            add({"decl": decl, **({"nsmode": nsmode} if nsmode else {})}, ["f-decl"], ns=ns)
+    for eol in EOLS:
+        for noise in (None, 7):
+            add({"eol": eol, **({"noise": noise} if noise is not None else {})}, ["f-eol"])
+    for pre in [[p] for p in PRES] + [["pi", "comment", "doctype"], ["longcomment", "pi"], ["blank", "doctype", "longcomment"]]:
+        for padk in ((3, 30) if "longcomment" in pre else (3,)):
+            add({"pre": pre, "padk": padk}, ["f-prolog"])
+            add({"pre": pre, "padk": padk, "nsmode": "prefix", "decl": "utf16"}, ["f-prolog"])
+    for xsi in (False, True):
+        for between in (False, True):
+            add({"xsi": xsi, "between": between, "noise": 11 if between else None}, ["f-root"], nfiles=2)
+    for k in range(len(FILE_NAMES)):
+        add({"name": k}, ["f-name"], nfiles=2)
+    return cases
+
+
+def gen_exh_options(ctx):
+    """every container type of the file argument; every combination of exclude_features / open_modification_bin_size /
+    to_df on 1..3 files"""
+    cases = []
+    for arg in ARG_KINDS:
+        for n in (1, 2):
+            cases.append(mk_case(opt_doc(n), "rev_", ["exh-options", "arg=" + arg, f"files={n}"], arg=arg))
+    for arg, nm in (("tuple", 0), ("series", 7), ("pathlist", 8)):
+        files = opt_doc(12)
+        for f in files:
+            f["fmt"] = {"name": nm}
+        cases.append(mk_case(files, "rev_", ["exh-options", "arg=" + arg, "files=12"], arg=arg))
+    excl = [None, {"kind": "str", "names": ["expect"]}, {"kind": "list", "names": ["hyperscore", "mass_diff", "ntt"]},
+            {"kind": "tuple", "names": ["charge_2", "no such column", "deltacn", "num_matched_peptides", "abs_mz_diff"]}]
+    for n in (1, 2, 3):
+        for ex in excl:
+            for b in (None, "0.01", "0.5"):
+                for ds in (False, True):
+                    if ex is None and b is None and not ds:
+                        continue
+                    tags = ["exh-options", f"files={n}"]
+                    kw = {}
+                    if ex is not None:
+                        kw["exclude"] = ex
+                        tags.append("exclude=" + ex["kind"])
+                    if b is not None:
+                        kw["bin"] = b
+                        tags.append("open-mod-bin")
+                    if ds:
+                        kw["dataset"] = True
+                        tags.append("to_df=False")
+                    cases.append(mk_case(opt_doc(n), "rev_", tags, **kw))
+    return cases
+
+
+def gen_prefixes(ctx):
+    """decoy prefixes made of characters that mean something to regular expressions / glob patterns, against proteins
+    that carry the prefix exactly and proteins that nearly do"""
+    cases = []
+    for pre in SPECIAL_PREFIXES + ["rev_", "decoy_"]:
+        nm = near_misses(pre)
+        hits = []
+        for j, lead in enumerate([pre] + nm):
+            hits.append(mk_hit(pep="PEPK"[: 1 + j % 4] + "A" * (j % 3), prot=lead + f"sp|P{j}|X d", calc=1000000 + j,
+                               scores=[("hyperscore", f"{j}.5")]))
+        for j, lead in enumerate(nm[:6]):
+            hits.append(mk_hit(pep="KK" + "C" * (j % 3), prot=pre + f"Q{j}", alts=[lead + f"R{j} d", pre + "S"],
+                               calc=2000000 + j, scores=[("hyperscore", f"{j}.25")], perm=j))
+            hits.append(mk_hit(pep="RR" + "D" * (j % 3), prot=pre + f"T{j} " + lead, alts=[pre + f"U{j} " + lead],
+                               calc=3000000 + j, scores=[("hyperscore", f"{j}.75")]))
+        hits.append(mk_hit(pep="AK", prot=pre, scores=[("hyperscore", "1")]))
+        sp = [mk_spec([hits[i:i + 4]], scan=i + 1, charge=2 + i % 2) for i in range(0, len(hits), 4)]
+        cases.append(mk_case([mk_file([mk_run(sp)])], pre, ["prefix-special" if pre in SPECIAL_PREFIXES else "prefix-plain",
+                                                            "near-miss-proteins"]))
+    return cases
+
+
+def gen_options(ctx):
+    rng = ctx.sub("options")
+    cases = []
+    n = 5000 if ctx.thorough else 420
+    for k in range(n):
+        prefix = rng.choice(["rev_", "rev_", "rev_", "decoy_", "DECOY_", "XXX", "r"] + SPECIAL_PREFIXES)
+        files = rand_doc(rng, prefix)
+        enrich_doc(rng, files, prefix)
+        tags = ["options", f"files={len(files)}"]
+        if prefix in SPECIAL_PREFIXES:
+            tags.append("prefix-special")
+        for f in files:
+            if rng.random() < 0.8:
+                f["fmt"] = rand_fmt(rng)
+        opts = rand_options(rng, files, prefix, tags)
+        if prefix == "decoy_" and k % 2 == 0:
+            opts["default_prefix"] = True
+            tags.append("default-prefix")
+        hs = [h for _, _, _, h in all_hits({"files": files})]
+        tags.append("hits<=3" if len(hs) <= 3 else ("hits<=10" if len(hs) <= 10 else "hits>10"))
+        if any(h["alts"] for h in hs):
+            tags.append("alt-proteins")
+        if any(len(h["infos"]) and len(h["infos"][0]) >= 2 for h in hs):
+            tags.append("multi-mod")
+        if any(s["scan"] is not None and s["scan"] >= 2 ** 31 for _, _, s, _ in all_hits({"files": files})):
+            tags.append("scan>=2^31")
+        cases.append(mk_case(files, prefix, tags + fmt_tags(files), **opts))
+    return cases
+
+
+def big_doc(rng, prefix, nhits, nfiles):
+    files = []
+    per = max(1, nhits // nfiles)
+    for fi in range(nfiles):
+        runs = []
+        left = per
+        ri = 0
+        while left > 0:
+            spectra = []
+            for si in range(rng.randint(40, 120)):
+                if left <= 0:
+                    break
+                nh = min(left, rng.choice([1, 1, 2, 3, 5]))
+                left -= nh
+                spectra.append(mk_spec([[rand_hit(rng, prefix) for _ in range(nh)]], scan=1000 * ri + si + 1,
+                                       charge=rng.choice([1, 2, 2, 3, 3, 4]), rt=rand_dec(rng, 0, 72000000),
+                                       mass=rand_dec(rng, 3000000, 40000000), style=rng.randrange(10)))
+            runs.append(mk_run(spectra, base=f"big{fi}_{ri}", raw=".mzML", style=ri % 2))
+            ri += 1
+        files.append(mk_file(runs, ns=bool(fi % 2 == 0)))
+    enrich_doc(rng, files, prefix)
+    return files
+
+
+def gen_big(ctx):
+    """documents far larger than one read buffer of the parser (lxml.iterparse reads 32 KiB at a time)"""
+    rng = ctx.sub("big")
+    cases = []
+    plan = [(900, 1, {}), (1200, 3, {"bin": "0.02", "exclude": {"kind": "list", "names": ["expect", "ntt"]}, "shared": True})]
+    if ctx.thorough:
+        plan += [(5000, 2, {"arg": "pathlist"}), (3000, 1, {"bin": "0.5", "dataset": True})]
+    for nhits, nfiles, opts in plan:
+        files = big_doc(rng, "rev_", nhits, nfiles)
+        for f in files:
+            f["fmt"] = rand_fmt(rng)
+        if opts.get("dataset") and doc_labels(files, "rev_") != {True, False}:
+            opts = {k: v for k, v in opts.items() if k != "dataset"}
+        tags = ["big", f"files={nfiles}", "hits>=900"] + fmt_tags(files)
+        if "bin" in opts:
+            tags.append("open-mod-bin")
+        if "exclude" in opts:
+            tags.append("exclude=" + opts["exclude"]["kind"])
+        if opts.get("dataset"):
+            tags.append("to_df=False")
+        cases.append(mk_case(files, "rev_", tags, **opts))
+    return cases
+
+
+def gen_state(ctx):
+    """call order and leftovers: different documents written to the SAME paths one after the other (and back again),
+    with the same and with another decoy prefix; every one is also read twice"""
+    rng = ctx.sub("state")
+    cases = []
+    docs = [rand_doc(rng, "rev_", nfiles=2, small=True) for _ in range(3 if not ctx.thorough else 8)]
+    seq = list(range(len(docs))) + list(range(len(docs)))[::-1] + [0]
+    for j, k in enumerate(seq):
+        import copy
+        files = copy.deepcopy(docs[k])
+        for f in files:
+            f["fmt"] = {"name": 0}
+        cases.append(mk_case(files, "rev_" if j % 3 else "r", ["state", "reused-path", "called-twice"], shared=True,
+                             repeat=True, arg="tuple" if j % 2 else "list", seq=j))
+    return cases
+
+
+def gen_malformed2(ctx):
+    rng = ctx.sub("malformed2")
+    cases = []
+    good = lambda: rand_doc(rng, "rev_", nfiles=1, small=True)[0]
+    for br in PATH_BROKEN + ("binary", "otherxml"):
+        cases.append(mk_case([mk_file([], broken=br)], tags=["malformed", br]))
+        cases.append(mk_case([good(), mk_file([], broken=br)], tags=["malformed", br, "after-good"], arg="pathlist"))
+        cases.append(mk_case([mk_file([], broken=br), good()], tags=["malformed", br, "before-good"], arg="tuple"))
+        cases.append(mk_case([good(), mk_file([], broken=br), mk_file([], broken="notxml")],
+                             tags=["malformed", br, "after-good"], shared=True))
+    n = 1000 if ctx.thorough else 120
+    for k in range(n):
+        kind = rng.choice(["trunc", "garbage", "partial", "mismatch", "perc", "perc", "attr", "nohits", "binary", "missing"])
+        files = rand_doc(rng, "rev_", nfiles=rng.choice([1, 2, 3]), small=True)
+        enrich_doc(rng, files, "rev_")
+        tags = ["malformed", "malformed+options", kind]
+        for f in files:
+            if rng.random() < 0.7:
+                f["fmt"] = rand_fmt(rng)
+        opts = rand_options(rng, files, "rev_", tags)
+        opts.pop("dataset", None)
+        j = rng.randrange(len(files))
+        f = files[j]
+        hs = [h for r in f["runs"] for s in r["spectra"] for res in s["results"] for h in res]
+        if kind in ("trunc", "garbage", "mismatch", "binary", "missing"):
+            f["broken"] = kind
+            f["binseed"] = rng.randrange(1000)
+            if kind == "missing":
+                files[j] = mk_file([], broken="missing", fmt=f.get("fmt"))
+        elif kind == "partial":
+            f["broken"] = "partial"
+            f["partial_run"] = rand_doc(rng, "rev_", nfiles=1, small=True)[0]["runs"][0]
+        elif kind == "perc":
+            nm = rng.choice(PERC)
+            rng.choice(hs)["scores"].append([nm, "0.01"])
+            if rng.random() < 0.5:
+                opts["exclude"] = {"kind": rng.choice(["str", "list"]), "names": [nm]}      # excluding it does not legalise it
+                tags.append("perc-excluded")
+        elif kind == "attr":
+            sp = rng.choice([s for r in f["runs"] for s in r["spectra"]])
+            o = rng.choice(["scan", "charge", "rt", "mass", "calc"])
+            if o == "calc":
+                rng.choice(hs)["calc"] = None
+            else:
+                sp[o] = None
+        elif kind == "nohits":
+            for r in f["runs"]:
+                for s in r["spectra"]:
+                    s["results"] = [[] for _ in s["results"]]
+        cases.append(mk_case(files, "rev_", tags + fmt_tags(files), **opts))
+    return cases
+
+
+RESERVED = ["ms_data_file", "scan", "charge", "ret_time", "exp_mass", "calc_mass", "peptide", "proteins", "label",
+            "missed_cleavages", "ntt", "num_matched_peptides", "mass_diff", "abs_mz_diff"]
+KEY_COLLISION = "pepxml:score-name-collides-with-parser-key"
+
+
+def collides(case):
+    """a search_score named like one of the parser's own dictionary keys / derived columns"""
+    charges = {f"charge_{s['charge']}" for _, _, s, _ in all_hits(case)}
+    return any(n in RESERVED or n in charges for _, _, _, h in all_hits(case) for n, _ in h["scores"])
+
+
+def finding_key(c, m, i):
+    if c.get("fn") == "read" and collides(c):
+        return KEY_COLLISION
+    return None
+
+
+def gen_collisions(ctx):
+    """search scores named like the parser's own keys (a known finding: the score and the field overwrite each other)"""
+    cases = []
+    for name in RESERVED + ["charge_2", "charge_3"]:
+        h1 = mk_hit(pep="PEPTIDEK", prot="rev_P1 d", alts=["rev_P2"], scores=[("hyperscore", "14.5"), (name, "0.75")],
+                    mc=1, ntt=2, nmp=10, infos=[[(1, "5")]], perm=3)
+        h2 = mk_hit(pep="AAK", prot="P3 d", scores=[("hyperscore", "4.5"), (name, "0.25")], mc=1, ntt=2, nmp=10)
+        cases.append(mk_case([mk_file([mk_run([mk_spec([[h1, h2]])])])], tags=["score-name-collision"]))
+        cases.append(mk_case([mk_file([mk_run([mk_spec([[h2], [mk_hit(scores=[("hyperscore", "1.5")])]])])])],
+                             tags=["score-name-collision"]))
+    return cases
+
+
 def gen(ctx):
-    return gen_exhaustive(ctx) + gen_random(ctx) + gen_malformed(ctx)
+    return (gen_collisions(ctx) + gen_exhaustive(ctx) + gen_random(ctx) + gen_malformed(ctx)
+            + gen_formats(ctx) + gen_exh_options(ctx) + gen_prefixes(ctx) + gen_options(ctx) + gen_big(ctx)
+            + gen_state(ctx) + gen_malformed2(ctx))
 
 
 def nontrivial(c):
@@ -868,6 +1750,18 @@ def nontrivial(c):
 # ----------------------------------------------------------------------------- shrinking
 def shrink(c):
     import copy
+    for key in ("exclude", "bin", "dataset", "pdopt", "repeat", "arg", "shared"):
+        if c.get(key):
+            yield {k: v for k, v in c.items() if k != key}
+    for fi, f in enumerate(c["files"]):
+        if f.get("fmt"):
+            c2 = copy.deepcopy(c)
+            c2["files"][fi]["fmt"] = None
+            yield c2
+            for key in list(f["fmt"]):
+                c2 = copy.deepcopy(c)
+                del c2["files"][fi]["fmt"][key]
+                yield c2
     files = c["files"]
     if len(files) > 1:
         for k in range(len(files)):
